@@ -82,6 +82,10 @@ pub struct TfsModel {
     /// incarnation of the id, i.e. the id was inserted again afterwards with a
     /// text that does not contain the token.
     pub stale_old: BTreeSet<(u64, String)>,
+    /// Classification only: ids that are not live and whose LATEST removal was a
+    /// `remove` with a text containing every token of the removed document
+    /// ("its correct text").
+    pub removed_with_full_text: BTreeSet<u64>,
     /// Adjusted reference used behind the recorded finding
     /// `C11/stale-posting-of-reinserted-id`: a LIVE document additionally
     /// counts as containing the tokens of its stale entries (exactly the
@@ -110,6 +114,11 @@ impl TfsModel {
         self.stale_old.retain(|(i, t)| !(*i == id && text_tokens.contains_key(t)));
         match self.docs.remove(&id) {
             Some((_, toks)) => {
+                if toks.keys().all(|t| text_tokens.contains_key(t)) {
+                    self.removed_with_full_text.insert(id);
+                } else {
+                    self.removed_with_full_text.remove(&id);
+                }
                 for t in toks.keys() {
                     if !text_tokens.contains_key(t) {
                         self.stale.insert((id, t.clone()));
@@ -148,6 +157,15 @@ fn show_model(m: &TfsModel) -> String {
     }
     if !m.stale_old.is_empty() {
         s.push_str(&format!(" earlier-incarnation{:?}", m.stale_old));
+        let full: Vec<u64> = m
+            .removed_with_full_text
+            .iter()
+            .filter(|id| m.stale_old.iter().any(|(i, _)| i == *id))
+            .copied()
+            .collect();
+        if !full.is_empty() {
+            s.push_str(&format!(" last-removed-with-full-text{full:?}"));
+        }
     }
     s
 }
@@ -496,17 +514,22 @@ fn check_search(idx: &Idx, m: &TfsModel, words: &[usize], repeat: bool, all_k: b
     // difference there is classified as that one root cause.
     if repeat {
         let reps = if words.len() <= 2 { 1 } else { 8 };
+        // all repeats are always run, so that the evaluation count is the same in every run
+        let mut differing: Option<Vec<(u64, f32)>> = None;
         for _ in 0..reps {
             let again = idx.search(&qs, BIG_K, None);
             *evals += 1;
-            if bits(&again) != bits(&full) {
-                let kind = if words.len() <= 2 {
-                    format!("{what}:repeat")
-                } else {
-                    "search:multiword-repeat-hash-order".to_string()
-                };
-                return Err(Fail::new(kind, format!("query {qs:?}: {full:?} then {again:?}")));
+            if differing.is_none() && bits(&again) != bits(&full) {
+                differing = Some(again);
             }
+        }
+        if let Some(again) = differing {
+            let kind = if words.len() <= 2 {
+                format!("{what}:repeat")
+            } else {
+                "search:multiword-repeat-hash-order".to_string()
+            };
+            return Err(Fail::new(kind, format!("query {qs:?}: {full:?} then {again:?}")));
         }
     }
     if all_k && words.len() <= 2 {
@@ -528,8 +551,21 @@ pub const SIG_HASH_ORDER: &str = "C11/multiword-search-score-depends-on-hash-ord
 /// failure class / signature: a document removed with its CURRENT text is
 /// indexed again after flush + load, through a posting entry that an earlier
 /// incarnation of the same id left behind (remove with non-original text)
-pub const SIG_RESURRECT_KIND: &str = "removed-doc-indexed-again:stale-posting-of-earlier-incarnation";
+pub const SIG_RESURRECT_KIND: &str = "removed-doc-indexed-again:stale-posting-of-earlier-incarnation:last-removal-full-text";
 pub const SIG_RESURRECT: &str = "C11/removed-doc-resurrected-by-reload-via-stale-posting-of-earlier-incarnation";
+/// same, but the id's LATEST removal was again given a text that does not
+/// contain every token of the document
+pub const SIG_RESURRECT_KIND_B: &str = "removed-doc-indexed-again:stale-posting-of-earlier-incarnation:last-removal-partial-text";
+pub const SIG_RESURRECT_B: &str =
+    "C11/removed-doc-resurrected-by-reload-via-stale-posting-of-earlier-incarnation/last-removal-with-non-original-text";
+
+/// Failure classes that were observed on an index obtained by `load` (never
+/// on the live index): the engine prefixes them with one of these markers.
+fn observed_after_load(kind: &str) -> bool {
+    ["probe:", "reload:", "not-persisted-by-next-flush:", "first-flush-not-the-snapshot:"]
+        .iter()
+        .any(|p| kind.contains(p))
+}
 
 /// Fixed scenario outside the 1-3 token universe: six documents (one with five
 /// tokens), one 4-word plain query repeated `repeats` times on ONE index
@@ -612,6 +648,7 @@ impl Sut for Tfs {
                     2
                 } else {
                     m.docs.insert(*id, (*t, toks.clone()));
+                    m.removed_with_full_text.remove(id);
                     // entries for tokens of the new text are refreshed by the insert
                     m.stale.retain(|(i, tok)| !(i == id && toks.contains_key(tok)));
                     m.stale_old.retain(|(i, tok)| !(i == id && toks.contains_key(tok)));
@@ -658,6 +695,7 @@ impl Sut for Tfs {
                 for id in &set {
                     if m.docs.remove(id).is_some() {
                         want += 1;
+                        m.removed_with_full_text.remove(id);
                     }
                 }
                 // purge sweeps every posting list
@@ -758,7 +796,13 @@ impl Sut for Tfs {
         *evals += 5;
         if !surplus.is_empty() {
             let earlier = surplus.iter().all(|id| m.stale_old.iter().any(|(i, _)| i == id));
-            let kind = if earlier { SIG_RESURRECT_KIND } else { "doc-not-in-model" };
+            let kind = if !earlier {
+                "doc-not-in-model"
+            } else if surplus.iter().all(|id| m.removed_with_full_text.contains(id)) {
+                SIG_RESURRECT_KIND
+            } else {
+                SIG_RESURRECT_KIND_B
+            };
             return Err(Fail::new(
                 kind,
                 format!("documents {surplus:?} are indexed (get_doc_tokens) but not in the model {}", show_model(m)),
@@ -814,9 +858,6 @@ impl Sut for Tfs {
                 check_search(idx, m, &[a, b], true, true, evals)?;
             }
         }
-        check_search(idx, m, &[0, 1, 2], true, false, evals)?;
-        check_search(idx, m, &[3, 2, 1], true, false, evals)?;
-        check_search(idx, m, &[0, 1, 2, 3], true, false, evals)?;
         let t2 = q_trees(2);
         // every depth<=2 tree, default parameters, repeat + every k
         for q in &t2 {
@@ -845,6 +886,10 @@ impl Sut for Tfs {
                 check_tree(idx, m, q, "default", &None, true, evals)?;
             }
         }
+        // last, because a difference here is the recorded hash-order finding and ends the battery
+        check_search(idx, m, &[0, 1, 2], true, false, evals)?;
+        check_search(idx, m, &[3, 2, 1], true, false, evals)?;
+        check_search(idx, m, &[0, 1, 2, 3], true, false, evals)?;
         Ok(())
     }
 
@@ -883,8 +928,10 @@ impl Sut for Tfs {
             Some("C11/stale-posting-of-reinserted-id".to_string())
         } else if kind.contains("multiword-repeat-hash-order") {
             Some(SIG_HASH_ORDER.to_string())
-        } else if kind.contains(SIG_RESURRECT_KIND) {
+        } else if kind.contains(SIG_RESURRECT_KIND) && observed_after_load(kind) {
             Some(SIG_RESURRECT.to_string())
+        } else if kind.contains(SIG_RESURRECT_KIND_B) && observed_after_load(kind) {
+            Some(SIG_RESURRECT_B.to_string())
         } else {
             None
         }
@@ -967,6 +1014,31 @@ pub fn preludes() -> Vec<(&'static str, Vec<HOp<TfsOp>>)> {
         ("prelude-3docs-compacted-flushed", compacted),
         ("prelude-fragmented-compacted-flushed", fragmented),
     ]
+}
+
+/// Where the histories of a job start.
+#[derive(Clone, Copy, Debug)]
+pub enum Origin {
+    Fresh,
+    /// index into `legacy_seeds()`
+    Legacy(usize),
+    /// index into `preludes()`
+    Prelude(usize),
+}
+
+pub fn origin_start(o: Origin) -> (crate::engine::Start<TfsOp>, String) {
+    use crate::engine::Start;
+    match o {
+        Origin::Fresh => (Start::Fresh, "fresh".to_string()),
+        Origin::Legacy(i) => {
+            let (name, seed) = legacy_seeds().swap_remove(i);
+            (Start::Legacy(seed), name.to_string())
+        }
+        Origin::Prelude(i) => {
+            let (name, ops) = preludes().swap_remove(i);
+            (Start::Prelude(ops), name.to_string())
+        }
+    }
 }
 
 pub fn legacy_seeds() -> Vec<(&'static str, Vec<HOp<TfsOp>>)> {
